@@ -251,7 +251,9 @@ static Exec execute(long jobIdx, const Job& job, const std::vector<int>* sched, 
     if (!ex.livelock) drain();
     if (ex.livelock) {
         for (auto& e : events) ex.history += "V " + e + "\n";
-        out += ex.history + "LIVELOCK\nX -\nE\n";
+        std::string xs;
+        for (std::size_t i = 0; i < ex.executed.size() && i < 2000; i++) xs += (i ? "," : "") + std::to_string(ex.executed[i]);
+        out += ex.history + "LIVELOCK\nX " + (xs.empty() ? std::string("-") : xs) + "\nE\n";
         g = nullptr;
         return ex;  // the unfinished contexts are abandoned
     }
